@@ -465,3 +465,29 @@ fn c19_set_new_thread_at_capacity_panics() {
     let _ = set.new_thread();
     crate::must_not_reach!("C19.new_thread.returns_despite_max_threads");
 }
+
+//@ props=C16 tier=quick fns=src/rt/thread.rs::Set::clear,src/rt/thread.rs::Set::new,src/rt/thread.rs::Thread::new bounded=threads:N=3
+#[kani::proof]
+#[kani::unwind(7)]
+#[kani::stub(std::hash::RandomState::new, fixed_random_state)]
+fn c16_set_clear_resets_thread_state() {
+    // end-of-iteration thread set: 3 threads, arbitrary states / clocks / pending operations / active
+    let mut set = any_set(3);
+    any_pending_ops(&mut set, |k| if k == 0 { None } else { Some(crate::rt::object::verif_kani::op_opaque(0)) });
+    if kani::any() {
+        set_active_raw(&mut set, None); // all threads finished
+    }
+    let new_id = execution::Id::new();
+    set.clear(new_id);
+    let v = set_view(&set);
+    oblige!("C16.clear.exactly_one_fresh_main_thread", v.len == 1 && v.active == Some(0)
+        && v.th[0].st == (StView::Runnable { unparked: false }) && v.th[0].op.is_none() && !v.th[0].critical
+        && vv_eq(&v.th[0].causality, &zero_vv()) && vv_eq(&v.th[0].released, &zero_vv()) && vv_eq(&v.th[0].dpor_vv, &zero_vv())
+        && v.th[0].last_yield.is_none() && v.th[0].yield_count == 0 && locals_len(&set, 0) == 0);
+    oblige!("C16.clear.sc_fence_view_reset", vv_eq(&v.seq_cst, &zero_vv()));
+    oblige!("C16.clear.new_execution_id_everywhere", set.execution_id() == new_id && wf_set(&set));
+    let fresh = std::mem::ManuallyDrop::new(Set::new(new_id, 4));
+    let f = set_view(&fresh);
+    oblige!("C16.new.same_initial_state_as_a_fresh_set", f.len == v.len && f.active == v.active && th_view_eq(&f.th[0], &v.th[0]) && vv_eq(&f.seq_cst, &v.seq_cst) && fresh.max() >= 4);
+    reach!("c16_set_clear");
+}
